@@ -146,6 +146,16 @@ func (x *Exec) builtin(fr *frame, b *ssa.Builtin, c *ssa.CallCommon, args []Valu
 		return args[0]
 	case "recover":
 		return Iface{}
+	case "String": // unsafe.String(ptr, len)
+		return Str{P: x.asPtr(args[0]), Len: args[1].(*smt.Term)}
+	case "StringData": // unsafe.StringData(s)
+		if v, ok := args[0].(Str); ok {
+			return v.P
+		}
+	case "SliceData": // unsafe.SliceData(s)
+		if v, ok := args[0].(Slice); ok {
+			return v.P
+		}
 	case "clear":
 		if m, ok := args[0].(MapRef); ok && m.M != nil {
 			for _, e := range m.M.Entries {
